@@ -62,7 +62,7 @@ def run(ctx):
                 bad = bad or "push returns with the hazard slot still set"
     o.check(bad is None, "terminate -> CAS(release) -> link -> release slot", bad, site=push.loc, construct="mpmc push order")
 
-    o = ctx.ob("pop.order", pop, "prev->value is read before the CAS on head and never after; the value is returned only on the CAS-success edge; exactly the "
+    o = ctx.ob("pop.order", pop, "prev->value is read before the CAS on head, or after it while prev is still published in its hazard slot; the value is returned only on the CAS-success edge; exactly the "
                "old head is retired (hazard_pointer_free(&head->hazard)), only on that edge", "after the CAS another popper may already have "
                "retired prev (it is the new dummy head): reading it then is a use-after-free; retiring prev frees the live dummy")
     cas = [s for s in pop.stores_to(Q, "head") if s.aop == "cas"]
@@ -74,10 +74,21 @@ def run(ctx):
     else:
         c = cas[0]
         succ = lambda leaf, pol: through_local(pop, leaf) is c.node and pol is True
+        # the hazard slot that protects prev: hazard_pointer_using(hptr, &prev->hazard, K) ... hazard_pointer_done_using(hptr, K)
+        pv = [strip(l.target.kids[0]) for l in pop.loads_of(N, "value") if strip(l.target.kids[0]) is not None and strip(l.target.kids[0]).k == "DeclRefExpr"]
+        slotk = None
+        for u in pop.calls("hazard_pointer_using"):
+            ua = pop.args(u)
+            if pv and key_mentions(pop.key(ua[1], False), lambda x, d=pv[0].did: x[0] == "var" and x[2] == d):
+                slotk = ua[2].cv
+        released = [d for d in pop.calls("hazard_pointer_done_using") if slotk is not None and pop.args(d)[1].cv == slotk]
         for v in vals:
             if pop.find_path(c.node, lambda n: n is v, barrier=lambda n: n is not c.node and is_atomic_load(n)) is not None:
-                bad = bad or "prev->value is read after the CAS on head"
-        if pop.dominated_by(c.node, nodeset(vals)) is not None:
+                # after the CAS the read is still safe while the slot that protects prev is published (C14: a scan sees every slot)
+                if slotk is None or not released or any(pop.find_path(d, lambda n: n is v) is not None for d in released):
+                    bad = bad or "prev->value is read after the CAS on head, when prev is no longer protected by its hazard slot"
+        if pop.dominated_by(c.node, nodeset(vals)) is not None and bad is None and not all(
+                pop.find_path(c.node, lambda n, v=v: n is v) is not None for v in vals):
             bad = bad or "the CAS on head is reachable before the value was read"
         if not order_ge(c.order or "relaxed", "release"):
             bad = bad or "head CAS order %s" % c.order
